@@ -290,7 +290,7 @@ Section Laws.
     rewrite (global_after i dl _ _ new st v nw Hi Hn).
     assert (Hc : get v (cavity i st) = prod_at v None (remove_nth i st)).
     { rewrite cavity_get. apply has_var_In in Hv. rewrite Hv. reflexivity. }
-    unfold Model.new_msg, Model.cand, Model.cand_valid. rewrite Hf. simpl. rewrite Hvalid. simpl.
+    unfold Model.new_msg, Model.cand, Model.cand_v, Model.cand_valid. rewrite Hf. simpl. rewrite Hvalid. simpl.
     rewrite <- Hc. destruct (get v (cavity i st)) as [c|]; simpl; [|reflexivity].
     f_equal. apply gsub_add.
   Qed.
@@ -336,7 +336,7 @@ Section Laws.
     assert (Hc : get v (cavity i st) = prod_at v None (remove_nth i st)) by (apply (cavity_get_own i st v l Hl)).
     rewrite global_get, (prod_at_split i st v Hi), Hl, <- Hc in Hg.
     unfold Model.new_msg. rewrite Hok.
-    unfold Model.cand. rewrite Hf. simpl. rewrite Hl, <- Hc.
+    unfold Model.cand, Model.cand_v. rewrite Hf. simpl. rewrite Hl, <- Hc.
     set (d := delta_at dl v).
     destruct (get v (cavity i st)) as [c|]; simpl in *; injection Hg as <-; f_equal.
     rewrite gscale_opp_add, (m_add_r _ _ _ ML).
@@ -348,6 +348,47 @@ Section Laws.
   Theorem rescale_split s o c : gadd (gscale s o) (gadd c (gscale (Q2Qc 1 - s)%Qc o)) = gadd o c.
   Proof.
     rewrite (g_comm _ _ _ _ GL c), (g_assoc _ _ _ _ GL), gscale_split. reflexivity.
+  Qed.
+
+  Lemma gscale_zero x : gscale (Q2Qc 0) x = gzero.
+  Proof.
+    assert (H : gadd (gscale (Q2Qc 0) x) (gscale (Q2Qc 0) x) = gscale (Q2Qc 0) x).
+    { rewrite <- (m_add_l _ _ _ ML). f_equal; try ring. }
+    rewrite <- (gadd_zero_r (gscale (Q2Qc 0) x)) at 1.
+    rewrite <- (g_opp_r _ _ _ _ GL (gscale (Q2Qc 0) x)) at 1.
+    rewrite (g_assoc _ _ _ _ GL), H. apply (g_opp_r _ _ _ _ GL).
+  Qed.
+
+  (* per-variable delta exactly 1: the damped formula IS the full projection new / cavity ... *)
+  Lemma damped_one_is_full nw l cav :
+    damped_cand G gadd gopp gscale (Q2Qc 1) nw (Some l) cav = full_cand G gadd gopp nw cav.
+  Proof.
+    unfold damped_cand, full_cand. replace (Q2Qc 1 - Q2Qc 1)%Qc with (Q2Qc 0) by ring.
+    rewrite gscale_zero, gadd_zero_r, (m_one _ _ _ ML).
+    destruct cav as [c|]; [rewrite (m_one _ _ _ ML)|]; reflexivity.
+  Qed.
+  (* ... and the repaired exponent handling (rescale) accepts it whenever new / cavity is a proper distribution *)
+  Theorem pervar_delta_one_fixed ds cavd last v nw l :
+    get v last = Some l -> qlookup v ds = Q2Qc 1 ->
+    gvalid (full_cand G gadd gopp nw (get v cavd)) = true ->
+    cand_v G gadd gopp gscale true (DPerVar ds) cavd last v nw = (full_cand G gadd gopp nw (get v cavd), true)
+    /\ cand_valid (cand_v G gadd gopp gscale true (DPerVar ds) cavd last v nw) = true.
+  Proof.
+    intros Hl Hd Hv. unfold Model.cand_v. simpl. rewrite Hd, Hl, damped_one_is_full.
+    assert (E : rescaled_exps_ok G (Q2Qc 1) (Some l) = true) by reflexivity.
+    rewrite E. split; [reflexivity|]. unfold Model.cand_valid. simpl. exact Hv.
+  Qed.
+
+  Theorem update_exact_per_variable i dl new st v nw l g : i < length st ->
+    is_full dl = false -> delta_at dl v = Q2Qc 1 ->
+    get v new = Some nw -> get v (own i st) = Some l -> get v (global st) = Some g ->
+    cand_valid (cand dl (cavity i st) (own i st) v nw) = true ->
+    get v (global (step i dl new st)) = Some nw.
+  Proof.
+    intros Hi Hf Hd Hn Hl Hg Hok.
+    rewrite (update_damped i dl new st v nw l g Hi Hf Hn Hl Hg Hok), Hd.
+    replace (Q2Qc 1 - Q2Qc 1)%Qc with (Q2Qc 0) by ring.
+    rewrite gscale_zero, gadd_zero_r, (m_one _ _ _ ML). reflexivity.
   Qed.
 
   (* ---------- sequences of updates ---------- *)
